@@ -104,6 +104,8 @@ def main(argv=None):
                 mod.finalize_merged(run)
         else:
             core.run_inprocess(mod, run)
+            if hasattr(mod, "finalize_merged"):
+                mod.finalize_merged(run)
     except core.Inconclusive as e:
         core.write_evidence(run, mod, [str(e)])
         print(f"INCONCLUSIVE property={pid}: {e}")
